@@ -537,7 +537,6 @@ func runC16(c *Ctx) {
 	_ = token.NoPos
 }
 
-
 // kindSubsumes: the config-side kind accepts every value of the HCL-side kind
 // (an `any` element accepts the HCL notation's narrower element type).
 func kindSubsumes(cfg, hcl string) bool {
